@@ -687,6 +687,20 @@ func (fv *FuncVC) backEdge(li *loopInfo, from *ssa.BasicBlock) {
 func (fv *FuncVC) doReturn(r *ssa.Return) {
 	fc := fv.FC
 	fv.retCount++
+	// ghost assignments at exit (locals and results by name, old() = entry state)
+	for _, c := range fc.Exit {
+		genv := fv.newEnv(fv.cur, fv.entry)
+		genv.cells = true
+		for i, res := range r.Results {
+			if i < len(fc.Results) {
+				genv.vars[fc.Results[i].Name] = fv.val(res)
+			}
+		}
+		v := genv.expr(c.E, c.Pos)
+		nv := fv.freshConst("g."+mangle(c.Name), v.Sort)
+		fv.assumeHere(eq(nv, v))
+		fv.cur.ghost[c.Name] = nv
+	}
 	env := fv.newEnv(fv.cur, fv.entry)
 	for i, res := range r.Results {
 		name := fmt.Sprintf("$%d", i)
